@@ -454,15 +454,11 @@ Proof.
 Qed.
 
 (* ------------------------------------------------------------------ *)
-(* valid frames, the D13 case excepted, are the frames of AcceptP *)
-Definition d13_free (f : aframe) : Prop :=
-  af_type f = 14 ->
-  match af_body f with BDisc _ _ ps => Forall (fun ap => ap_id ap = 38) ps | _ => True end.
-
-Lemma sframe_frame_ok f : sframe_ok f -> d13_free f -> frame_ok f.
+(* valid frames are the frames of AcceptP *)
+Lemma sframe_frame_ok f : sframe_ok f -> frame_ok f.
 Proof.
-  destruct f as [t fl b]. unfold sframe_ok, d13_free, frame_ok. cbn [af_type af_flags af_body].
-  intros [Hb _] Hd. destruct b; cbn [sbody_ok] in Hb.
+  destruct f as [t fl b]. unfold sframe_ok, frame_ok. cbn [af_type af_flags af_body].
+  intros [Hb _]. destruct b; cbn [sbody_ok] in Hb.
   - destruct Hb as [-> [-> [H _]]]. fin.
   - exact Hb.
   - exact Hb.
@@ -476,5 +472,4 @@ Proof.
   - exact Hb.
   - destruct Hb as [Ht [-> [Hrc Hf]]]. split; [exact Ht|]. split; [reflexivity|]. split; [exact Hrc|].
     unfold disc_frame_ok. destruct form as [|[[]|[]|]]; try contradiction; try exact Hf.
-    destruct Hf as [G1 G2]. split; [exact G1|]. split; [exact G2|]. exact Hd.
 Qed.
